@@ -412,26 +412,64 @@ class C10(PropCheck):
                 return ['scalar', v]
             return ['vec', list(v)]
 
-        ll = shaped(post._unnormalized_loglikelihood(x), 0)
-        gl = shaped(post._gradient_unnormalized_loglikelihood(x), 1)
-        lp = np.asarray(post.logpdf(x), dtype=float).reshape(-1)
-        gr = np.asarray(post.gradient_logpdf(x), dtype=float).reshape(-1, d)
+        # spy on the surrogate: the oracle values are exactly what the implementation was handed
+        calls = []
+        orig_p, orig_g = gp.predict, gp.predictive_gradients
+
+        def spy_p(xx, noiseless=False):
+            m, v = orig_p(xx, noiseless)
+            calls.append(('p', np.array(xx, dtype=float).reshape(-1, d), np.array(m, dtype=float), np.array(v, dtype=float)))
+            return m, v
+
+        def spy_g(xx):
+            gm_, gv_ = orig_g(xx)
+            calls.append(('g', np.array(xx, dtype=float).reshape(-1, d), np.array(gm_, dtype=float), np.array(gv_, dtype=float)))
+            return gm_, gv_
+        gp.predict, gp.predictive_gradients = spy_p, spy_g
+        try:
+            ll = shaped(post._unnormalized_loglikelihood(x), 0)
+            n_ll = len(calls)
+            gl = shaped(post._gradient_unnormalized_loglikelihood(x), 1)
+            gl_calls = calls[n_ll:]
+            lp = np.asarray(post.logpdf(x), dtype=float).reshape(-1)
+            gr = np.asarray(post.gradient_logpdf(x), dtype=float).reshape(-1, d)
+        finally:
+            del gp.predict, gp.predictive_gradients
         out = dict(t=t, ndim=ndim,
                    ll=[ll[0], enc(ll[1]) if ll[0] == 'scalar' else [enc(v) for v in ll[1]]],
                    gl=[gl[0], [enc(v) for v in np.ravel(gl[1])] if gl[0] == 'scalar' else [[enc(v) for v in np.ravel(rw)] for rw in gl[1]]],
                    logpdf=[enc(v) for v in lp], grad=[[enc(v) for v in rw] for rw in gr])
-        # ---- oracle values per row (the surrogate and scipy queried at each row by itself)
+        # every predict call of the four entry points must have returned the same values for the same rows
+        seen = {}
+        stable = True
+        for kind, xx, a, b in calls:
+            for i, xr in enumerate(xx):
+                k = (kind, xr.tobytes())
+                val = (np.ravel(a[i]).tobytes(), np.ravel(b[i]).tobytes())
+                stable = stable and seen.setdefault(k, val) == val
+        out['surrogate_deterministic'] = stable
+        spied = {}
+        for kind, xx, a, b in gl_calls:
+            for i, xr in enumerate(xx):
+                spied[(kind, xr.tobytes())] = (np.ravel(a[i]), np.ravel(b[i]))
+        # ---- oracle values per row: what the implementation was handed (rows it did not query: queried now)
         import scipy.stats as ss
         rows = []
         for p in P:
             xr = p[None, :]
-            mean, var = gp.predict(xr)
-            gm, gv = gp.predictive_gradients(xr)
-            mean = float(mean[0, 0]); var = float(var[0, 0])
+            if ('p', p.tobytes()) in spied and ('g', p.tobytes()) in spied:
+                (mean, var), (gm, gv) = spied[('p', p.tobytes())], spied[('g', p.tobytes())]
+                mean = float(mean[0]); var = float(var[0])
+                src = 'spied'
+            else:
+                mean, var = gp.predict(xr)
+                gm, gv = gp.predictive_gradients(xr)
+                mean = float(mean[0, 0]); var = float(var[0, 0])
+                src = 'queried'
             sd = float(np.sqrt(var))
             z = (t - mean) / sd
             xq = p if d > 1 else p[0]
-            rows.append(dict(x=[float(v) for v in p], mean=mean, var=var, gmean=[float(v) for v in np.ravel(gm)],
+            rows.append(dict(x=[float(v) for v in p], src=src, mean=mean, var=var, gmean=[float(v) for v in np.ravel(gm)],
                              gvar=[float(v) for v in np.ravel(gv)], sd=sd, z=z, pdf=float(ss.norm.pdf(z)),
                              cdf=float(ss.norm.cdf(z)), logpdf=float(ss.norm.logpdf(z)), logcdf=float(ss.norm.logcdf(z)),
                              lr=float(ss.norm.logpdf(z) - ss.norm.logcdf(z)),
@@ -444,7 +482,14 @@ class C10(PropCheck):
         for i, (p, rw) in enumerate(zip(P, rows)):
             b = np.array(rec['bounds'], dtype=float)
             margin = np.min(np.minimum(p - b[:, 0], b[:, 1] - p))
+            rw['cond_rel'] = self._cond_rel(gp, p, rw['var'])
             if not (margin > 4 * H_FD) or rw['lprior'] == 'ninf':
+                fd.append(None)
+                continue
+            if not rw['cond_rel'] < 1e-9:
+                # the surrogate's own rounding error (relative, in the variance) exceeds 1e-9: finite differences of
+                # its output measure GPy's noise, not the posterior's formula (the Coq-side clauses still apply)
+                self.bump('fd_rows_skipped_ill_conditioned_surrogate')
                 fd.append(None)
                 continue
             fd.append(self._fd(post, p, d))
@@ -454,11 +499,7 @@ class C10(PropCheck):
         if len(P) == 1:
             gp.is_sampling = True
             try:
-                gp.predict(P[0][None, :])
-                W = np.asarray(gp._rbf_woodbury_inv, dtype=float).reshape(len(gp.X), len(gp.X))
-                kx = gp._rbf_var * np.exp(np.sum((P[0][None, :] - np.asarray(gp.X)) ** 2, 1) * gp._rbf_factor) + gp._rbf_bias
-                # relative rounding error of the variance below 1e-12 and |term| moderate: then 1e-8 is a fair demand on the posterior
-                out['well_conditioned'] = bool(2.2e-16 * np.linalg.norm(W, 2) * float(kx @ kx) / rows[0]['var'] < 1e-12 and abs(rows[0]['z']) < 30)
+                out['well_conditioned'] = bool(rows[0]['cond_rel'] < 1e-12 and abs(rows[0]['z']) < 30)
                 samp = dict(logpdf=[enc(v) for v in np.ravel(post.logpdf(x))],
                             grad=[enc(v) for v in np.ravel(post.gradient_logpdf(x))])
             finally:
@@ -467,15 +508,29 @@ class C10(PropCheck):
         return out
 
     @staticmethod
+    def _cond_rel(gp, p, var):
+        """eps * ||W||_2 * |k|^2 / var: relative rounding error of the predictive variance k** - k W k^T + s2"""
+        W = np.asarray(gp._gp.posterior.woodbury_inv, dtype=float).reshape(len(gp._gp.X), len(gp._gp.X))
+        k = np.asarray(gp._gp.kern.K(p[None, :], gp._gp.X), dtype=float).ravel()
+        return float(2.2e-16 * np.linalg.norm(W, 2) * float(k @ k) / var)
+
+    @staticmethod
     def _fd(post, p, d):
+        """Richardson-extrapolated central differences at two step sizes; None for a coordinate where the two
+        estimates disagree (the finite-difference oracle is then not trustworthy at this point: function varying on
+        the scale of h, or surrogate rounding noise) -- the clause is only evaluated where the oracle is self-consistent."""
         def f(y):
             return float(np.ravel(post.logpdf(y if d > 1 else y[0:1]))[0])
+
+        def rich(h, e):
+            d1 = (f(p + h * e) - f(p - h * e)) / (2 * h)
+            d2 = (f(p + 2 * h * e) - f(p - 2 * h * e)) / (4 * h)
+            return (4 * d1 - d2) / 3
         g = []
         for j in range(d):
             e = np.zeros(d); e[j] = 1.0
-            d1 = (f(p + H_FD * e) - f(p - H_FD * e)) / (2 * H_FD)
-            d2 = (f(p + 2 * H_FD * e) - f(p - 2 * H_FD * e)) / (4 * H_FD)
-            g.append((4 * d1 - d2) / 3)
+            a, b = rich(H_FD, e), rich(H_FD / 4, e)
+            g.append(b if math.isfinite(a) and math.isfinite(b) and abs(a - b) <= 0.2 * TOL_FD * (1 + abs(b)) else None)
         return g
 
     # ---- python-side clauses --------------------------------------------------------------------
@@ -501,9 +556,15 @@ class C10(PropCheck):
                 if not isinstance(lp, str) and any(isinstance(v, str) for v in g):
                     fails.append(('gradient_finite_where_logpdf_finite', 'row %d x=%s: logpdf %s is finite but gradient_logpdf is %s (term=%s, cdf=%s)'
                                   % (i, case['query']['points'][i], lp, g, out['rows'][i]['z'], out['rows'][i]['cdf'])))
+            if not out['surrogate_deterministic']:
+                fails.append(('surrogate_deterministic', 'the surrogate returned different values for the same row in two calls'))
             for i, (g, fdg) in enumerate(zip(out['grad'], out['fd'])):
                 if fdg is None or any(isinstance(v, str) for v in g):
                     continue
+                keep = [j for j, v in enumerate(fdg) if v is not None]
+                self.bump('fd_coordinates_checked', len(keep))
+                self.bump('fd_coordinates_unreliable', len(fdg) - len(keep))
+                g, fdg = [g[j] for j in keep], [fdg[j] for j in keep]
                 if not close(g, fdg, TOL_FD):
                     fails.append(('gradient_is_derivative', 'row %d x=%s: gradient_logpdf %s vs finite differences of logpdf %s'
                                   % (i, case['query']['points'][i], g, fdg)))
